@@ -41,6 +41,7 @@ var gSources = map[string]string{
 	`(?i)[ab]`:  "##!+ i\na|b\n",
 	`x y`:       "x y\n",
 	`ab `:       "ab[ ]\n",
+	`ld1`:       "ld1\n",
 }
 
 const rulesFileName = "rules/REQUEST-932-APPLICATION-ATTACK-RCE.conf"
@@ -130,7 +131,7 @@ func checkRules(c *Ctx, roundTrip bool) error {
 	c.Cov["recorded_target_lines_validated"] = atomic.LoadInt64(&updTraces)
 	c.Cov["exhaustive"] = keepMod == 1
 	if roundTrip {
-		c.Cov["rule"] = fmt.Sprintf("rules files of <= %d items over the 16-item vocabulary of MC_Rules x targets (7 ids x chain 0..3) x one regex of the hazard pool (8 regexes, one ending in a blank) per target; history compare / update / compare / update / generate / edit one operand byte / compare (text and github mode) / append one blank to the operand / compare / update --all / compare --all on the real binary, each step compared with the spec; non-trivial = update succeeds and the regex contains a quote, $, blank or backslash", items)
+		c.Cov["rule"] = fmt.Sprintf("rules files of <= %d items over the 16-item vocabulary of MC_Rules x targets (7 ids x chain 0..3) x one regex of the hazard pool (9 regexes, one ending in a blank, one a substring of a stored operand) per target; history compare / update / compare / update / generate / edit one operand byte / compare (text and github mode) / append one blank to the operand / compare / update --all / compare --all on the real binary, each step compared with the spec; non-trivial = update succeeds and the regex contains a quote, $, blank or backslash", items)
 	} else {
 		c.Cov["rule"] = fmt.Sprintf("rules files of <= %d items over the 16-item vocabulary of MC_Rules x targets (7 ids x chain 0..3) x one regex of the hazard pool per target; after `regex update` the whole tree is compared with the spec: rules file bytes = Bytes(Update(..)), nothing else changed, failures leave everything untouched; non-trivial = file has >= 2 rules or the target is a chained link", items)
 	}
